@@ -88,6 +88,11 @@ def predict_rule(ck, prog):
             if f and f["path"].endswith("Iterator::max_by"):
                 hits.append((bd, rs, bb, rs.operand(t["args"][0]), t))
     problems = []
+    if len(hits) == 0:
+        # the arg-max written as an explicit loop with a running best (or some other form): not one of the recognised idioms;
+        # the rule identifies the max_by form positively and does not decide other forms
+        ck.note(f"{inst}: no max_by over the candidate classes (arg-max in another form): not decided for this form")
+        return
     if len(hits) != 1:
         ck.violation(rule, inst, b.path, site, expected="one arg-max (max_by) over the candidate classes", found=f"{len(hits)} max_by calls")
         return
@@ -268,7 +273,7 @@ def run(ck, prog):
     predict_rule(ck, prog)
     classes_accessors(ck, prog)
     separation(ck, prog)
-    ck.floor("E2a-label-decode", 1)
+    # no floor: the arg-max form is identified positively (a loop-form arg-max leaves a note, not an alarm)
     ck.floor("E2a-label-table", 4)
     ck.floor("E2b-label-taint", 3)
 
